@@ -231,11 +231,13 @@ pub struct FallbackKf {
     tainted: bool,
     tainted_reshape: bool,
     scc_at_exec: std::collections::HashMap<u8, std::collections::BTreeSet<u8>>,
+    /// same, recorded when the body starts (an execution that panics has no End record)
+    scc_at_start: std::collections::HashMap<u8, std::collections::BTreeSet<u8>>,
 }
 
 impl FallbackKf {
     pub fn new() -> Self {
-        FallbackKf { inner: ValueOracle::new(), last_exec_rev: Default::default(), open: vec![], tainted: false, tainted_reshape: false, scc_at_exec: Default::default() }
+        FallbackKf { inner: ValueOracle::new(), last_exec_rev: Default::default(), open: vec![], tainted: false, tainted_reshape: false, scc_at_exec: Default::default(), scc_at_start: Default::default() }
     }
 }
 
@@ -247,7 +249,13 @@ impl Oracle for FallbackKf {
         let is_fall = |n: u8| prog.nodes[n as usize].kind == Kind::Fall;
         for r in cx.recs {
             match r {
-                Rec::Start(LKey::Node(n, _), _) => self.open.push(*n),
+                Rec::Start(LKey::Node(n, _), _) => {
+                    self.open.push(*n);
+                    if is_fall(*n) {
+                        let now: std::collections::BTreeSet<u8> = cycles.iter().find(|s| s.contains(n)).cloned().unwrap_or_default();
+                        self.scc_at_start.insert(*n, now);
+                    }
+                }
                 Rec::End(rec) => {
                     if let LKey::Node(p, _) = rec.key {
                         if let Some(pos) = self.open.iter().rposition(|x| *x == p) {
@@ -264,7 +272,7 @@ impl Oracle for FallbackKf {
                                         // the memo `h` is served from was itself computed as a
                                         // cycle member (a memo from an acyclic revision is
                                         // verified edge by edge and the cycle is found)
-                                        && self.scc_at_exec.get(h).map(|s| !s.is_empty()).unwrap_or(false)
+                                        && self.scc_at_exec.get(h).or(self.scc_at_start.get(h)).map(|s| !s.is_empty()).unwrap_or(true)
                                     {
                                         self.tainted = true;
                                     }
